@@ -16,6 +16,7 @@ import (
 	"github.com/cloudwego/hertz/pkg/common/config"
 	"github.com/cloudwego/hertz/pkg/protocol"
 	"github.com/cloudwego/hertz/pkg/route"
+	"github.com/cloudwego/hertz/pkg/route/param"
 )
 
 func c06Engine() *route.Engine {
@@ -75,9 +76,14 @@ func c06Request(method, url string) (ctx *app.RequestContext) {
 }
 
 func c06Lookup(e *route.Engine, method, url string, ran *[]int) (res []string) {
-	ctx := c06Request(method, url)
+	_, res = c06LookupCtx(e, method, url, ran)
+	return res
+}
+
+func c06LookupCtx(e *route.Engine, method, url string, ran *[]int) (ctx *app.RequestContext, res []string) {
+	ctx = c06Request(method, url)
 	if ctx == nil {
-		return []string{"=", "X"}
+		return nil, []string{"=", "X"}
 	}
 	norm := hx(ctx.Request.URI().Path())
 	if norm == hx([]byte(url)) {
@@ -91,16 +97,16 @@ func c06Lookup(e *route.Engine, method, url string, ran *[]int) (res []string) {
 	}()
 	e.ServeHTTP(context.Background(), ctx)
 	if len(*ran) == 0 {
-		return []string{norm, "N", strconv.Itoa(ctx.Response.StatusCode())}
+		return ctx, []string{norm, "N", strconv.Itoa(ctx.Response.StatusCode())}
 	}
 	if len(*ran) > 1 {
-		return []string{norm, "P"}
+		return ctx, []string{norm, "P"}
 	}
 	res = []string{norm, "H", strconv.Itoa((*ran)[0]), hx([]byte(ctx.FullPath())), strconv.Itoa(len(ctx.Params))}
 	for _, p := range ctx.Params {
 		res = append(res, hx([]byte(p.Key)), hx([]byte(p.Value)))
 	}
-	return res
+	return ctx, res
 }
 
 var c06Probe *route.Engine
@@ -129,8 +135,26 @@ func init() {
 			}
 		}
 		out = append(out, "OK")
+		// parameter values handed to a handler must stay what they were while later requests are routed (a handler may
+		// keep them, and another connection may be routed meanwhile): they are read again after all lookups
+		type kept struct {
+			at int
+			ps param.Params
+		}
+		var keep []kept
 		for j := 0; j < m; j++ {
-			out = append(out, c06Lookup(e, lookups[2*j], string(unhx(lookups[2*j+1])), &ran)...)
+			ctx, res := c06LookupCtx(e, lookups[2*j], string(unhx(lookups[2*j+1])), &ran)
+			if ctx != nil && len(res) > 1 && res[1] == "H" {
+				keep = append(keep, kept{len(out) + 5, ctx.Params})
+			}
+			out = append(out, res...)
+		}
+		for _, k := range keep {
+			for i, p := range k.ps {
+				if out[k.at+2*i] != hx([]byte(p.Key)) || out[k.at+2*i+1] != hx([]byte(p.Value)) {
+					return append(out, "ALIASED")
+				}
+			}
 		}
 		return out
 	}
@@ -292,7 +316,7 @@ func c06Subsets(n, k int, f func(idx []int)) {
 }
 
 var c06RandSegs = []string{"a", "ab", "abc", "b", "ba", "c", "a.b", "-", ":x", ":y", ":id", "a:x", "ab:y", "b:x", "*z", "*w", ""}
-var c06RandVals = []string{"a", "ab", "abc", "b", "ba", "c", "abd", "a.b", "-", "x", "", "ac", "a:x"}
+var c06RandVals = []string{"a", "ab", "abc", "b", "ba", "c", "abd", "a.b", "-", "x", "", "ac", "a:x", "c++", "a+b", "k%2541", "%2525", "a%20b"}
 var c06HostilePats = []string{"", "a", "//", "/./a", "/a/../b", "/::", "/:", "/:/a", "/*", "/a*b", "/:a:b", "/:a*b", "/*a/b", "/*a*b", "/a/*",
 	"/ a", "/%61", "/a?b", "/a#b", "/\x00", "/\xff", "/a/", "/a//", "//a", "/a/./", "/..", "/*x:y", "/a:", "/a:/b", "/:x/", "/:x//", "/a/b/../:x", "a/:x", ":x", "*z"}
 var c06HostilePaths = []string{"", "a", "//a", "/a//b", "/a/../b", "/./a", "/%61", "/a%2fb", "/a?x=1", "/a#f", "/A", "/a/./", "/..", "/a/..", "/\x00", "/\xff",
